@@ -68,6 +68,8 @@ fn run<T: ByteValued>(kind: u64, count: usize, off: usize, m: bool, route: u64) 
         };
         return Some((l, a.wrapping_sub(FAKE)));
     }
+    // absurd operands (token perturbation) are rejected before any allocation
+    assert!(count <= (1 << 22) && off <= (1 << 22));
     let bytes = match kind {
         0 => count,
         1 => std::mem::size_of::<T>(),
